@@ -480,7 +480,22 @@ func (c *Ctx) errBlocks(r *Report, pa *ssa.Function, facts *Facts) {
 		r.Fail("ERR-blocks", fname, "error-producing calls in the argument loop", "", "none found")
 	}
 	// recoveries
-	for _, in := range c.instrs(pa, recov) {
+	recSites := c.instrs(pa, recov)
+	for _, as := range c.addArgsSites(pa) {
+		// the re-queue reached through a new wrapper: judged at the wrapper call
+		if as.Kind == "pop" {
+			dup := false
+			for _, x := range recSites {
+				if x == as.Site {
+					dup = true
+				}
+			}
+			if !dup && as.Site.Parent() == pa {
+				recSites = append(recSites, as.Site)
+			}
+		}
+	}
+	for _, in := range recSites {
 		if !c.inLoop(loop, in.Block()) {
 			continue
 		}
